@@ -578,3 +578,160 @@ Proof.
   destruct (mon_run (tmon_step false) tmon_init tr) as [m|] eqn:E; [|discriminate].
   rewrite (tmon_strict_run _ _ _ E Hk). reflexivity.
 Qed.
+
+(* ------------------------------------------------------------------ *)
+(* the repaired code (controller.reset refuses a disabled controller): the
+   archive file stays absent after Terminate, whatever overlapped it *)
+
+Lemma arch_stable_fixed : forall st a st' evs,
+  ginv st -> dead st -> cfg_fixed st = true -> arch_file st = None -> step st a = Some (st', evs) ->
+  arch_file st' = None /\ forallb arch_event evs = true.
+Proof.
+  intros st a st' evs G D Hfix Ha H.
+  destruct (dead_loop _ G D) as [Hl Hk]. destruct D as [Dd Dp Ds Dc].
+  destruct a; unfold_steps H; try rewrite Hl in H; try rewrite Dd in H; try rewrite Dp in H;
+    try rewrite Ds in H; try rewrite Dc in H; try rewrite Hfix in H; cbn [andb] in H; crunch.
+  all: match goal with
+       | Hf : find_thread _ _ = Some ?x |- _ =>
+         let Hx := fresh "Hx" in let Hid := fresh "Hid" in
+         destruct (find_thread_in _ _ _ Hf) as [Hx Hid];
+         pose proof (g_pc _ G _ Hx) as Gpc;
+         pose proof (holder_locked _ _ Hx) as Ghl; unfold holds_lock in Ghl
+       | _ => idtac
+       end.
+  all: repeat match goal with E : th_pc _ = _ |- _ => rewrite E in * end.
+  all: repeat match goal with E : th_cmd _ = _ |- _ => rewrite E in * end.
+  all: cbn in *; try discriminate; try congruence.
+  all: try (specialize (Ghl eq_refl); congruence).
+  all: try (destruct (negb (existsb (fun th => is_create (th_cmd th)) (threads st))); discriminate).
+  all: try (split; [try assumption; try reflexivity|try reflexivity; try (rewrite Ha; reflexivity)]).
+  all: try (exfalso;
+            assert (is_create (th_cmd t0) = true) as Hc by (rewrite E2; reflexivity);
+            assert (idle t0 = false) as Hi by (unfold idle; rewrite E0; reflexivity);
+            destruct (g_creating _ G _ Hx Hc Hi) as (_ & Hd & _); congruence).
+Qed.
+
+Lemma tmon_strict_eq : forall m e,
+  (forall a n, e <> ObA true (Some a) n) -> tmon_step true m e = tmon_step false m e.
+Proof.
+  intros m e H. unfold tmon_step. destruct e; try reflexivity.
+  destruct clean; [|reflexivity]. destruct arch as [a|]; [|reflexivity]. exfalso. eapply H. reflexivity.
+Qed.
+
+Lemma tmon_strict_no_oba : forall evs m,
+  (forall a n, ~ In (ObA true (Some a) n) evs) ->
+  mon_run (tmon_step true) m evs = mon_run (tmon_step false) m evs.
+Proof.
+  induction evs as [|e r IH]; intros m H; [reflexivity|]. cbn.
+  rewrite tmon_strict_eq by (intros a n E; apply (H a n); left; exact E).
+  destruct (tmon_step false m e); [|reflexivity]. apply IH. intros a n Hin. apply (H a n). right. exact Hin.
+Qed.
+
+(* only the observation of the archive emits an archive observation *)
+Lemma step_oba : forall st a st' evs,
+  step st a = Some (st', evs) -> a <> AObserveA -> forall c x n, ~ In (ObA c x n) evs.
+Proof.
+  intros st a st' evs H Hno c x n Hin.
+  destruct a; try (exfalso; apply Hno; reflexivity).
+  14: { cbn in H. destruct (loop st) as [l|] eqn:El; [|discriminate].
+        destruct (loop_step_frame _ _ _ _ _ H) as [_ Hev]. rewrite forallb_forall in Hev.
+        specialize (Hev _ Hin). discriminate. }
+  all: unfold_steps H; crunch; cbn in Hin;
+    repeat (destruct Hin as [Hin|Hin]; [discriminate|]); try contradiction.
+Qed.
+
+(* t_term rises only at the nil return of a Terminate *)
+Lemma term_rise : forall strict evs m m',
+  mon_run (tmon_step strict) m evs = Some m' -> t_term m = false -> t_term m' = true ->
+  exists t, In (Rt t CTerminate true) evs.
+Proof.
+  induction evs as [|e r IH]; intros m m' H Hf Ht; cbn in H; [inv H; congruence|].
+  destruct (tmon_step strict m e) as [m1|] eqn:E; [|discriminate].
+  destruct (t_term m1) eqn:E1.
+  - exists (match e with Rt t _ _ => t | _ => 0 end). left.
+    unfold tmon_step in E. destruct e; crunch; cbn in E1; try congruence.
+    rewrite Hf in E1. cbn in E1. subst ok. destruct c; try discriminate. reflexivity.
+  - destruct (IH m1 m' H E1 Ht) as (t & Hin). exists t. right. exact Hin.
+Qed.
+
+(* a return record belongs to the return step of that thread *)
+Lemma step_rt : forall st a st' evs t c ok,
+  step st a = Some (st', evs) -> In (Rt t c ok) evs ->
+  exists th ok0, a = AReturn t /\ find_thread t (threads st) = Some th /\ th_cmd th = c /\ th_pc th = TRet ok0 /\
+                 (c <> CShutdown -> ok0 = ok).
+Proof.
+  intros st a st' evs t c ok H Hin.
+  destruct a.
+  9: { destruct (step_return _ _ _ _ H) as (th & ok0 & Hf & Hpc & _ & ->).
+       destruct Hin as [E|[]]. inv E. exists th, ok0. repeat split; auto.
+       intro Hns. destruct (th_cmd th); try reflexivity. contradiction. }
+  1: { destruct (step_call _ _ _ _ _ H) as (-> & _). destruct Hin as [E|[]]. discriminate. }
+  all: exfalso; destruct (step_keys _ _ _ _ H) as [_ Hev]; try (intros; discriminate);
+    rewrite forallb_forall in Hev; specialize (Hev _ Hin); discriminate.
+Qed.
+
+Record trelF (m : tmon) (st : cstate) : Prop := {
+  tf_rel : trel m st;
+  tf_fixed : cfg_fixed st = true;
+  tf_term : t_term m = true -> arch_file st = None;
+  tf_done : forall th, In th (threads st) -> th_cmd th = CTerminate -> th_pc th = TRet true -> arch_file st = None
+}.
+
+Lemma trelF_init : forall md manual, trelF tmon_init (init_state md manual).
+Proof.
+  intros. constructor.
+  - apply trel_init.
+  - reflexivity.
+  - discriminate.
+  - intros th [].
+Qed.
+
+Lemma trelF_step : forall m st a st' evs,
+  trelF m st -> step st a = Some (st', evs) ->
+  exists m', mon_run (tmon_step true) m evs = Some m' /\ trelF m' st'.
+Proof.
+  intros m st a st' evs [R Hfix Hterm Hdone] H.
+  pose proof (tr_ginv _ _ R) as G.
+  destruct (trel_step _ _ _ _ _ R H) as (m' & Hrun & R').
+  destruct (step_config _ _ _ _ H) as [Hfix' _].
+  (* a finished Terminate means: terminated state, archive absent *)
+  assert (Hdead_of : forall th, In th (threads st) -> th_cmd th = CTerminate -> th_pc th = TRet true -> dead st).
+  { intros th Hin Hc Hpc. destruct (tr_all _ _ R th Hin Hc) as (b & Hb).
+    apply (tr_done _ _ R (th_id th) b Hb th Hin eq_refl Hpc). }
+  assert (Hstrict : mon_run (tmon_step true) m evs = Some m').
+  { destruct (action_eq_dec_oa a) as [->|Hno].
+    - cbn in H. inv H. cbn [mon_run] in *.
+      assert (tmon_step true m (ObA true (arch_file st') (arch_ver st')) =
+              tmon_step false m (ObA true (arch_file st') (arch_ver st'))) as ->; [|exact Hrun].
+      destruct (arch_file st') as [x|] eqn:Ea.
+      + destruct (t_term m) eqn:Et; [pose proof (Hterm eq_refl); congruence|].
+        unfold tmon_step. rewrite Et. reflexivity.
+      + apply tmon_strict_eq. intros; discriminate.
+    - rewrite tmon_strict_no_oba; [exact Hrun|]. intros x n Hin. eapply step_oba; eassumption. }
+  exists m'. split; [exact Hstrict|].
+  (* the archive after the step *)
+  assert (Hkeep : dead st -> arch_file st = None -> arch_file st' = None).
+  { intros D Ha. apply (arch_stable_fixed _ _ _ _ G D Hfix Ha H). }
+  constructor.
+  - exact R'.
+  - congruence.
+  - intro Ht'. destruct (t_term m) eqn:Et.
+    + apply Hkeep; [apply (tr_term _ _ R); exact Et|apply Hterm; reflexivity].
+    + destruct (term_rise _ _ _ _ Hrun Et Ht') as (t & Hin).
+      destruct (step_rt _ _ _ _ _ _ _ H Hin) as (th & ok0 & -> & Hf & Hc & Hpc & Hok).
+      assert (ok0 = true) as -> by (apply Hok; discriminate).
+      destruct (find_thread_in _ _ _ Hf) as [Hth _].
+      apply Hkeep; [eapply Hdead_of; eassumption|eapply Hdone; eassumption].
+  - intros th' Hin' Hc' Hpc'.
+    destruct (term_completion _ _ _ _ _ G H Hin' Hc' Hpc') as [Hold|[_ Ha]]; [|exact Ha].
+    apply Hkeep; [eapply Hdead_of; eassumption|eapply Hdone; eassumption].
+Qed.
+
+(* the full statement for the repaired code: every trace passes the strict
+   terminate monitor *)
+Theorem terminate_strict_monitor_accepts : forall md manual st tr,
+  reach (init_state md manual) st tr -> check_terminate true tr = true.
+Proof.
+  intros md manual st tr H. unfold check_terminate.
+  eapply (simulation_accepts tmon (tmon_step true) trelF); [apply trelF_init|apply trelF_step|exact H].
+Qed.
